@@ -311,13 +311,19 @@ def run(c):
         pids = r.randint(1, 5000)
         period = r.choice([100000, 50000, 1000000, 1000])
         quota = r.randint(1000, 4 * period)
-        ops += [{"op": "new", "h": 0, "name": "g%d" % i, "as": i + 1},
-                {"op": "setlimits", "h": i + 1, "prefix": "%s/g%d" % (root, i), "mem": mem, "pids": pids, "quota": quota, "period": period}]
-        lim.append((mem, pids, quota, period))
+        ops.append({"op": "new", "h": 0, "name": "g%d" % i, "as": i + 1})
+        # a history of settings on one group: each one must be in force after its call, whatever was set before (default values included)
+        for step in range(r.randint(1, 4)):
+            ops.append({"op": "setlimits", "h": i + 1, "prefix": "%s/g%d" % (root, i), "mem": mem, "pids": pids, "quota": quota, "period": period})
+            lim.append((mem, pids, quota, period))
+            mem = r.choice([4, 8, 16, 64, 1000, 1 << 18]) * 4096 * r.randint(1, 50)
+            pids = r.randint(1, 5000)
+            period = r.choice([100000, 100000, 50000, 1000000, 1000])
+            quota = r.randint(1000, 4 * period)
     burns = [(40, 8), (120, 24)] if c.quick() else [(40, 8), (120, 24), (300, 64), (20, 2), (200, 100)]
     for j, (ms, mb) in enumerate(burns):
         ops += [{"op": "new", "h": 0, "name": "b%d" % j, "as": 200 + j}, {"op": "burn", "h": 200 + j, "ms": ms, "mb": mb}]
-    for i in range(len(lim)):
+    for i in range(6 if c.quick() else 40):
         ops.append({"op": "destroy", "h": i + 1})
     for j in range(len(burns)):
         ops.append({"op": "destroy", "h": 200 + j})
@@ -337,7 +343,9 @@ def run(c):
             ms, mb = burns[bi]
             bi += 1
             c.count("burn-%d" % bi, nontrivial=True, klass="usage")
-            ok_cpu = o.get("cpu_err") is None and ms * 0.8e6 <= o["cpu_ns"] <= ms * 3e6 + 8e7
+            # a unit check (a reading in microseconds would be 1000 times smaller): wide enough for a loaded machine, where the accounting of
+            # the group runs ahead of the child's own CPU clock
+            ok_cpu = o.get("cpu_err") is None and ms * 0.5e6 <= o["cpu_ns"] <= ms * 30e6 + 3e8
             ok_mem = o.get("mem_err") is None and mb * (1 << 20) * 0.9 <= o["mem_peak"] <= mb * (1 << 20) + (64 << 20)
             if not (ok_cpu and ok_mem):
                 c.finding_or_violation({"kind": "cgroup", "what": "usage readings are not in nanoseconds / bytes", "cpu_ok": ok_cpu, "mem_ok": ok_mem},
